@@ -644,7 +644,8 @@ func c20Foreign(chk *fw.Check) int {
 		strings.Repeat("ab", 32): true, "CRL_1_TMP": false, "sub": true,
 	}
 	// the work_dir itself may carry characters which mean something to pattern matching (glob, regexp)
-	for _, wdName := range []string{"", "crl[1]", "a*b?c", "re(x)+.$", "back\\slash"} {
+	// ... it may itself be named like a temporary artefact, and the configured path may be a symbolic link to the directory
+	for _, wdName := range []string{"", "crl[1]", "a*b?c", "re(x)+.$", "back\\slash", "crl_work_tmp", "->symlink"} {
 		for _, disk := range []bool{false, true} {
 			n++
 			wdName := wdName
@@ -652,9 +653,20 @@ func c20Foreign(chk *fw.Check) int {
 				parent := FreshDir("c20s")
 				defer os.RemoveAll(parent)
 				dir := parent
-				if wdName != "" {
+				cfgDir := ""
+				if wdName == "->symlink" {
+					dir = filepath.Join(parent, "real")
+					os.MkdirAll(dir, 0755)
+					cfgDir = filepath.Join(parent, "link")
+					if err := os.Symlink(dir, cfgDir); err != nil {
+						panic(err)
+					}
+				} else if wdName != "" {
 					dir = filepath.Join(parent, wdName)
 					os.MkdirAll(dir, 0755)
+				}
+				if cfgDir == "" {
+					cfgDir = dir
 				}
 				for name, isDir := range foreign {
 					if isDir {
@@ -669,7 +681,7 @@ func c20Foreign(chk *fw.Check) int {
 				os.MkdirAll(filepath.Join(dir, "crl_abc_tmp", "deep"), 0755)
 				os.WriteFile(filepath.Join(dir, "crl_abc_tmp", "deep", "f"), []byte("x"), 0644)
 				before := treeSnapshot(dir, "")
-				w := NewCW(CWOpt{Disk: disk, SigMode: config.SignatureValidationModeVerify, Dir: dir})
+				w := NewCW(CWOpt{Disk: disk, SigMode: config.SignatureValidationModeVerify, Dir: cfgDir})
 				w.Net.Serve(urlA, "doc", doc)
 				if err := w.Provision(); err != nil {
 					chk.Violation("C20|provision-fails|foreign", err.Error(), nil)
